@@ -28,6 +28,48 @@ def rel(t, era0):
     return tuple(rel(x, era0) if isinstance(x, tuple) else x for x in t)
 
 
+def loop_invariant_fields(lp):
+    """member fields that no iteration of the loop writes (directly or through a container call): a value of such a field read
+    before the loop (hoisted into a local) is the value it has in every iteration"""
+    cached = getattr(lp, '_written', None)
+    if cached is None:
+        from symex import root_of
+        written = set()
+
+        def walk(paths):
+            for p in paths:
+                for e in p.trace:
+                    if e[0] in ('wr', 'call', 'atomic', 'swap', 'iota'):
+                        r = root_of(e[1])
+                        if r[0] == 'field':
+                            written.add(r[1])
+                        elif r[0] == 'this':
+                            written.add('*')
+                        # memory reached through iterators / call results is element storage, never a member of *this itself
+                        if e[0] == 'swap':
+                            r2 = root_of(e[2])
+                            if r2[0] == 'field':
+                                written.add(r2[1])
+                    elif e[0] == 'unknown':
+                        written.add('*')
+                    elif e[0] == 'loop':
+                        walk(e[1].iters)
+        walk(lp.iters)
+        lp._written = written
+        cached = written
+    return cached
+
+
+def unstale(t, written):
+    """a scalar member read in an earlier era whose field the loop never writes: the same as reading it now"""
+    if not isinstance(t, tuple) or not t:
+        return t
+    if t[0] == 'ld' and len(t) == 3 and isinstance(t[1], int) and t[1] < 0 and isinstance(t[2], tuple) and t[2][:2] == ('fld', ('this',)) \
+            and '*' not in written and t[2][2] not in written:
+        return ('ld', 0, t[2])
+    return tuple(unstale(x, written) if isinstance(x, tuple) else x for x in t)
+
+
 def subterms(t):
     if isinstance(t, tuple) and t:
         yield t
@@ -434,6 +476,10 @@ class Lifter:
                             return ('AGED', (ent, now), False)
                         if nop == '<':
                             return ('AGED_INCL', (ent, now), False)
+            # ---- comparisons that the representation invariant decides (defensive re-validation in the source)
+            ri = self.classify_ri(op, a, b)
+            if ri is not None:
+                return ri
             # iterator comparisons
             if op in ('!=', '=='):
                 for x, y in ((a, b), (b, a)):
@@ -460,6 +506,67 @@ class Lifter:
                 if isinstance(a, tuple) and isinstance(b, tuple) and a[0] == 'lv' and b[0] == 'lv':
                     return ('LV_EQ', (a[1], b[1]), op == '==')
         return ('OTHER', (term,), True)
+
+    def classify_ri(self, op, a, b):
+        """VALID_IT / SID_RANGE / BACKPTR_SELF / RNG_RANGE / partition-at-head: comparisons whose outcome follows from RI for bound slots"""
+        r = self.r
+        containers = {self.index: 'index'}
+        if self.order is not None:
+            containers[self.order] = 'order'
+        for t, (an, ak) in self.aux.items():
+            containers[t] = an
+        if op in ('==', '!='):
+            for x, y in ((a, b), (b, a)):
+                # stored iterator of an element vs end() of the structure it points into
+                if isinstance(y, tuple) and y and y[0] == 'q' and y[1] in ('end', 'cend') and y[2] in containers:
+                    tgt = containers[y[2]]
+                    if is_ld(x) and x[2][0] == 'fld' and x[2][2] in r.backptrs and (r.backptrs[x[2][2]] == tgt or
+                                                                                    (tgt == 'order' and r.backptrs[x[2][2]] == 'order')):
+                        ent = self.elem_entity(x[2][1]) if r.kind != 'maplist' or x[2][2] != 'm_keyed_elements_position' else self.node_entity(unld_node(x[2][1]))
+                        return ('VALID_IT', (ent, x[2][2]), op == '!=')
+                    if tgt == 'order' and isinstance(x, tuple) and x and x[0] == 'lv':
+                        return ('LV_AT_ORDER_END', (x[1],), op == '==')
+                    if r.kind == 'nodelist' and tgt == 'order' and not (isinstance(x, tuple) and x and x[0] == 'lv'):
+                        ent = self.sid_entity(x)
+                        if ent.kind not in ('OTHER', 'PARAM', 'LV', 'STALE'):
+                            return ('VALID_IT', (ent, 'node'), op == '!=')
+                    if isinstance(x, tuple) and x and x[0] == 'q' and x[1] in ('begin', 'cbegin') and x[2] == y[2]:
+                        if tgt == 'order':
+                            return ('TRUE', (), op == '!=')          # capacity >= 1: the slot list is never empty
+                        if tgt == 'index':
+                            return ('NONEMPTY', (), op == '!=')
+                        return ('AUX_NONEMPTY', (tgt,), op == '!=')
+                # the element's node is already the last one of an auxiliary list (a splice to the back would be a no-op)
+                if is_ld(x) and x[2][0] == 'fld' and x[2][2] in r.backptrs and r.backptrs[x[2][2]] in r.aux_kind \
+                        and isinstance(y, tuple) and y and y[0] == 'adv' and y[1] == -1 and isinstance(y[2], tuple) and y[2][0] == 'q' \
+                        and y[2][1] in ('end', 'cend') and y[2][2] == THIS(r.backptrs[x[2][2]]):
+                    return ('IS_AUX_LAST', (self.elem_entity(x[2][1]), r.backptrs[x[2][2]]), op == '==')
+                # an element's stored position vs the very position it was reached through
+                if is_ld(x) and x[2][0] == 'fld' and x[2][2] in r.backptrs:
+                    tgt = r.backptrs[x[2][2]]
+                    ent = self.elem_entity(x[2][1])
+                    if tgt == 'index' and self.is_find(y) and ent.kind == 'FOUND' and ent.arg == y[3][0]:
+                        return ('BACKPTR_SELF', (ent, x[2][2]), op == '==')
+                    if tgt in r.aux_kind and isinstance(y, tuple) and y and y[0] == 'q' and y[1] in ('begin', 'cbegin') and y[2] == THIS(tgt) \
+                            and ent.kind == 'AUXHEAD' and ent.arg == tgt:
+                        return ('BACKPTR_SELF', (ent, x[2][2]), op == '==')
+        if op in ('<', '>', '<=', '>=') and self.slots is not None:
+            for x, y, o in ((a, b, op), (b, a, {'<': '>', '>': '<', '<=': '>=', '>=': '<='}[op])):
+                if isinstance(y, tuple) and y and y[0] == 'q' and y[1] == 'size' and y[2] == self.slots and isinstance(x, tuple) and x and x[0] == 'ld':
+                    ent = self.sid_entity(x)
+                    if ent.kind not in ('OTHER', 'PARAM', 'RAWRNG', 'STALE', 'MAYALIAS', 'RES'):
+                        if o == '<':
+                            return ('SID_RANGE', (ent,), True)
+                        if o == '>=':
+                            return ('SID_RANGE', (ent,), False)
+        if op in ('<', '>', '<=', '>=') and self.perm is not None and self.part is not None:
+            for x, y, o in ((a, b, op), (b, a, {'<': '>', '>': '<', '<=': '>=', '>=': '<='}[op])):
+                if isinstance(x, tuple) and x and x[0] == 'rng' and y == ld0(self.part):
+                    if o == '<':
+                        return ('RNG_RANGE', (x[1],), True)
+                    if o == '>=':
+                        return ('RNG_RANGE', (x[1],), False)
+        return None
 
     def iter_entity(self, it):
         """entity whose order-list node the iterator value `it` denotes"""
@@ -546,12 +653,16 @@ class Segment:
         # each loop on the way havocs the state once (era + 1): keep 'era 0' = the era current at the event
         self.events = []
         cur = era0
+        inv = loop_invariant_fields(loop) if loop is not None else None
         for e in path.trace:
             if e[0] == 'loop':
                 self.events.append(e)
                 cur += 1
             else:
-                self.events.append(tuple(rel(x, cur) if isinstance(x, tuple) else x for x in e))
+                ev = tuple(rel(x, cur) if isinstance(x, tuple) else x for x in e)
+                if inv is not None and e[0] in ('cond', 'lwr', 'wr', 'call', 'use', 'ret'):
+                    ev = tuple(unstale(x, inv) if isinstance(x, tuple) else x for x in ev)
+                self.events.append(ev)
         self.final_era = cur
         self.ret = rel(path.ret, cur) if path.ret is not None else None
         self.status = path.status
@@ -562,6 +673,67 @@ class Segment:
         self.order = []       # interleaved ('cond', i) / ('eff', i) / ('loop', i) for ordering queries
         self.out_results = set(parent.out_results) if parent is not None else set()
         self._lift()
+        self._alias_pass()
+        self._aux_alias_pass()
+
+    def _aux_alias_pass(self):
+        """ut_map / ut_set: after `ttl_list.splice(end(), ttl_list, node_of(E))` the node reached as back() / std::prev(end()) is E's node"""
+        r = self.L.r
+        if r.kind != 'maplist':
+            return
+        at_end = {}
+        for e in self.effects:
+            if e.kind == 'AUX_MOVE' and isinstance(e.dest, tuple) and e.dest and e.dest[0] == 'q' and e.dest[1] in ('end', 'cend') \
+                    and isinstance(e.ent, Ent) and e.ent.kind not in ('OTHER', 'STALE'):
+                at_end[e.aux] = e.ent
+                continue
+            if e.kind in ('AUX_ADD', 'AUX_DEL', 'AUX_ERASE_RANGE', 'AUX_OP'):
+                at_end.pop(getattr(e, 'aux', None), None)
+                continue
+            ent = getattr(e, 'ent', None)
+            if isinstance(ent, Ent) and ent.kind == 'FROMEND' and ent.arg == -1 and len(at_end) == 1:
+                owner = next(iter(at_end.values()))
+                e.ent = Ent('TTLOF', owner.key(), 0, ent.term)
+
+    def _alias_pass(self):
+        """two names for one list node (an iterator taken before a splice and `back()` / `*rbegin()` / `std::prev(end())` taken after it)
+        are one entity: the list-position domain resolves both to the node they denote; later names are rewritten to the first"""
+        if self.L.order is None or not any(e.kind == 'MOVE' for e in self.effects):
+            return
+        ents = [e.ent for e in self.effects if isinstance(getattr(e, 'ent', None), Ent)]
+        if len(set(x.key() for x in ents)) < 2:
+            return
+        try:
+            from pos import PosSim
+            sim = PosSim(self, self.L.r)
+            sim.run()
+        except Exception:
+            return
+        if sim.unknown or getattr(sim, 'infeasible', False):
+            return
+        rep = {}
+        for e in self.effects:
+            ent = getattr(e, 'ent', None)
+            if not isinstance(ent, Ent) or ent.kind in ('OTHER', 'STALE', 'MAYALIAS'):
+                continue
+            n = sim.memo_node(ent.term)
+            if n is None:
+                continue
+            first = rep.setdefault(id(n), ent)
+            if first.key() != ent.key():
+                e.ent = Ent(first.kind, first.arg, first.epoch, ent.term)
+        for i, c in enumerate(self.conds):
+            args = list(c[1])
+            changed = False
+            for j, a in enumerate(args):
+                if isinstance(a, Ent) and a.kind not in ('OTHER', 'STALE', 'MAYALIAS'):
+                    n = sim.memo_node(a.term)
+                    if n is not None and id(n) in rep and rep[id(n)].key() != a.key():
+                        f = rep[id(n)]
+                        args[j] = Ent(f.kind, f.arg, f.epoch, a.term)
+                        changed = True
+            if changed:
+                self.conds[i] = (c[0], tuple(args)) + tuple(c[2:])
 
     def _lift(self):
         L = self.L
@@ -591,10 +763,16 @@ class Segment:
                 for cp in lp.cond_paths:
                     era = next((x[2] for x in cp.trace if x[0] == 'iter'), 0)
                     exits.append(Segment(L, cp, era, self.entry, lp, self))
+                # iterations / exits that contradict the representation invariant (dead defensive branches) do not exist
+                segs = [x for x in segs if feasible(x)[0]]
+                exits = [x for x in exits if feasible(x)[0]]
+                segs, exits = flag_controlled(segs, exits)
                 self.loops.append((lp, segs))
                 self.loop_exits[id(lp)] = exits
                 self.order.append(('loop', len(self.loops) - 1))
             elif k == 'use':
+                if e[2] == 'compare' and isinstance(e[1], tuple) and e[1] and e[1][0] == 'q' and e[1][1] in ('begin', 'cbegin', 'end', 'cend'):
+                    continue      # begin() / end() merely compared with something: no node is singled out
                 self.order.append(('use', e[1]))
             else:
                 eff = self.effect_of(e)
@@ -874,6 +1052,57 @@ class Segment:
                 yield from s.all_segments()
 
 
+def flag_controlled(segs, exits):
+    """`bool go = true; while (go && ...) { ... go = <test>; }`: an iteration that ends by setting the flag so that the condition fails
+    is an iteration that leaves the loop (status 'break'); the exit "flag is false at an arbitrary evaluation of the condition" is that
+    very iteration seen from outside and is dropped"""
+    def flag_of(c):
+        raw = c[4]
+        neg = False
+        while isinstance(raw, tuple) and raw and raw[0] == 'not':
+            raw, neg = raw[1], not neg
+        if isinstance(raw, tuple) and raw and raw[0] == 'lv' and len(raw) > 3 and raw[3] == 'iter':
+            return raw[1], (bool(c[5]) != neg)          # (variable, value the flag has on this path)
+        return None
+    drop = []
+    for x in exits:
+        fl = [flag_of(c) for c in x.conds if c[0] in ('OTHER', 'PARAM')]
+        fl = [f for f in fl if f is not None]
+        if len(fl) != 1 or len([c for c in x.conds if c[0] not in ('PEEK', 'UPD_OK', 'INS_OK')]) != 1:
+            continue
+        var, val_at_exit = fl[0]
+        setters = []
+        ok = True
+        for s in segs:
+            ws = [e for e in s.effects if e.kind == 'LOCAL' and isinstance(e.loc, tuple) and e.loc[1] == var]
+            if not ws:
+                continue
+            v = ws[-1].val
+            if not (isinstance(v, tuple) and v and v[0] == 'bool'):
+                ok = False
+                break
+            if v[1] == val_at_exit and s.status == 'continue':
+                setters.append(s)
+        if ok and setters:
+            for s in setters:
+                s.status = 'break'
+            drop.append(x)
+    if drop:
+        exits = [x for x in exits if x not in drop]
+    return segs, exits
+
+
+def emptiness(c):
+    """does this condition say whether the container holds anything?  -> True (non-empty) / False (empty) / None"""
+    if c[0] in ('NONEMPTY', 'AUX_NONEMPTY'):
+        return c[2]
+    if c[0] == 'AT_PART' and isinstance(c[1][0], Ent) and c[1][0].kind == 'FRONT':
+        return not c[2]           # the partition at the head of the slot list <=> nothing in use
+    if c[0] == 'IS_FRONT' and isinstance(c[1][0], Ent) and c[1][0].kind == 'ATPART' and c[1][0].arg == 0:
+        return not c[2]
+    return None
+
+
 def feasible(seg):
     """prune paths contradicting RI + capacity >= 1 (closed list of facts, DESIGN.md 3.2); -> (ok, reason)"""
     full = seg.cond('FULL')
@@ -894,6 +1123,142 @@ def feasible(seg):
         ent = c[1][0]
         if ent.kind == 'FOUND' and c[2] is False:
             return False, 'index-reached node is BOUND (has_value() true)'
+    # ---- comparisons decided by RI for bound slots / consistent structures
+    RI_BOUND = ('FOUND', 'AUXHEAD', 'AUXNODE', 'VIA', 'TTLOF', 'NEW', 'POSOF', 'LV', 'BACK', 'FRONT', 'FROMEND', 'ATPART', 'RANDPOS', 'PERMAT')
+    for c in seg.conds:
+        if c[0] == 'VALID_IT' and c[2] is False and isinstance(c[1][0], Ent) and c[1][0].kind in RI_BOUND:
+            return False, 'RI: a stored iterator of a bound slot is never end()'
+        if c[0] == 'SID_RANGE' and c[2] is False:
+            return False, 'RI: slot ids held by the structures are < capacity'
+        if c[0] == 'BACKPTR_SELF' and c[2] is False:
+            return False, 'RI: a bound slot\'s stored position is the position it is filed at'
+        if c[0] == 'TRUE' and c[2] is False:
+            return False, 'capacity >= 1'
+        if c[0] == 'RNG_RANGE' and c[2] is False:
+            for e in seg.effs('RNG_DRAW'):
+                d = e.dist
+                if e.sym == ('rng', c[1][0]) and isinstance(d, tuple) and d and d[0] == 'ctor' and len(d) > 2 and len(d[2]) == 2 \
+                        and d[2][0] == ('int', 0) and d[2][1] == ('add', ld0(seg.L.part), -1):
+                    return False, 'the draw is from {0 .. in-use - 1}'
+    # a local iterator that is not the partition (and walks the used region from the head) is not end() either
+    for c in seg.conds_of('LV_AT_ORDER_END'):
+        if c[2] is True:
+            for d in seg.conds_of('AT_PART'):
+                if d[2] is False and isinstance(d[1][0], Ent) and d[1][0].kind == 'LV' and d[1][0].arg == c[1][0]:
+                    return False, 'RI: a position before the partition is not end()'
+    # sizes only shrink on a path that adds nothing to the structure: size(before) >= size(after)
+    for c in seg.conds:
+        raw = c[4]
+        if c[0] == 'OTHER' and isinstance(raw, tuple) and raw and raw[0] == 'cmp' and raw[1] in ('<', '>', '<=', '>='):
+            a, b = raw[2], raw[3]
+            if all(isinstance(x, tuple) and x and x[0] == 'q' and x[1] == 'size' for x in (a, b)) and a[2] == b[2] and a[4] != b[4] \
+                    and a[4] is not None and b[4] is not None:
+                early, late = (a, b) if a[4] < b[4] else (b, a)
+                adds = [e for s2 in seg.all_segments() for e in s2.effects
+                        if (e.kind == 'AUX_ADD' and THIS(e.aux) == a[2]) or (e.kind in ('BIND', 'INDEX_OP') and a[2] == seg.L.index)
+                        or e.kind in ('AUX_OP', 'UNKNOWN')]
+                if not adds:
+                    # truth of (early >= late) is True
+                    op = raw[1] if a is early else {'<': '>', '>': '<', '<=': '>=', '>=': '<='}[raw[1]]
+                    val = {'>=': True, '<': False}.get(op)
+                    if val is not None and bool(c[5]) != val:
+                        return False, 'sizes only shrink on this path'
+    # fifo: an unbound node exists only while the cache is not full
+    if seg.L.r.name == 'fifo_cache' and seg.cond('FULL') is True:
+        for c in seg.conds_of('HASKEY'):
+            if c[2] is False:
+                return False, 'RI: a full fifo has no unbound node'
+    # emptiness is one fact: counter, index, partition-at-head and every auxiliary structure agree (between count-changing effects)
+    L = seg.L
+
+    def source(c):
+        """which structure an emptiness test looks at"""
+        if c[0] == 'AUX_NONEMPTY':
+            return 'aux:%s' % c[1][0]
+        raw = c[4]
+        subs = list(subterms(raw)) if isinstance(raw, tuple) else []
+        if L.counter is not None and any(x == ld0(L.counter) for x in subs):
+            return 'counter'
+        if any(isinstance(x, tuple) and x and x[0] == 'q' and x[2] == L.index for x in subs):
+            return 'index'
+        if L.part is not None and any(x == ld0(L.part) for x in subs):
+            return 'part'
+        return 'counter'
+
+    def deltas(e):
+        """[(structure, change in its element count or None if unknown)]"""
+        if e.kind == 'CNT':
+            out = [('counter', e.delta)]
+            if getattr(e, 'also_part', False):
+                out.append(('part', e.delta))
+            return out
+        if e.kind == 'BIND':
+            return [('index', 1)]
+        if e.kind == 'UNBIND':
+            return [('index', -1)]
+        if e.kind == 'INDEX_OP':
+            return [('index', None)]
+        if e.kind == 'AUX_ADD':
+            return [('aux:%s' % e.aux, 1)]
+        if e.kind == 'AUX_DEL':
+            return [('aux:%s' % e.aux, -1)]
+        if e.kind in ('AUX_ERASE_RANGE', 'AUX_OP'):
+            return [('aux:%s' % e.aux, None)]
+        if e.kind == 'PART':
+            return [('part', e.delta)]
+        return []
+
+    class Dirty:
+        """structures whose element count differs (or may differ) from what it was when the operation began"""
+        def __init__(self):
+            self.net = {}
+        def apply(self, ds):
+            for st_, d in ds:
+                cur = self.net.get(st_, 0)
+                self.net[st_] = None if (d is None or cur is None) else cur + d
+                own.pop(st_, None)
+        def __contains__(self, st_):
+            return self.net.get(st_, 0) != 0
+
+    clean_fact = None          # common emptiness of all structures whose count is what it was when the operation began
+    own = {}                   # structure -> fact established after it was modified
+    dirty = Dirty()
+    for k, i in seg.order:
+        if k == 'cond':
+            c = seg.conds[i]
+            if emptiness(c) is not None:
+                c = (c[0], c[1], emptiness(c)) + tuple(c[3:])
+                src = source(c) if c[0] not in ('AT_PART', 'IS_FRONT') else 'part'
+                if src in dirty:
+                    if src in own and own[src] != c[2]:
+                        return False, 'contradictory emptiness of %s' % src
+                    own[src] = c[2]
+                else:
+                    if clean_fact is not None and clean_fact != c[2]:
+                        return False, 'RI: counter, index, partition and auxiliary structures are empty together'
+                    clean_fact = c[2]
+            elif c[0] in ('PRESENT', 'FULL') and c[2] is True and (c[0] == 'FULL' or c[1][1] == 0):
+                src = 'index' if c[0] == 'PRESENT' else 'counter'
+                if src not in dirty:
+                    if clean_fact is False:
+                        return False, 'RI: %s => non-empty' % c[0]
+                    clean_fact = True
+        elif k == 'eff':
+            dirty.apply(deltas(seg.effects[i]))
+        elif k == 'loop':
+            lp, segs = seg.loops[i]
+            per_struct = {}
+            for s2 in segs:
+                net = {}
+                for e in s2.effects:
+                    for st_, d in deltas(e):
+                        cur = net.get(st_, 0)
+                        net[st_] = None if (d is None or cur is None) else cur + d
+                nested = bool(s2.loops)
+                for st_, d in net.items():
+                    per_struct.setdefault(st_, []).append(None if nested else d)
+            # a loop whose every iteration leaves a structure's count unchanged (re-filing) does not disturb it
+            dirty.apply([(st_, None) for st_, ds in per_struct.items() if any(d != 0 for d in ds)])
     # same predicate decided both ways on unchanged state
     seen = {}
     for kind, args, truth, site, raw, rawtruth in seg.conds:
